@@ -1,4 +1,4 @@
-//@unit c04_pager props=C04,C02,C16 widths=u32
+//@unit c04_pager props=C04,C02,C16,C15 widths=u32
 //@use prelude/head.rs
 //@use prelude/vob.rs
 //@use prelude/grammar.rs
@@ -316,7 +316,7 @@ pub struct Built { pub core_states: Vec<Itemset>, pub closed_states: Vec<Option<
 fn pager_stategraph(grm: &YaccGrammar) -> (r: Built)
     requires grm.wf(),
     ensures
-        graph_inv(grm, r.core_states@, r.closed_states@, r.edges@), // OBL: C04.pager.every_edge_leads_to_a_state_subsuming_the_transition C02.pager.every_edge_leads_to_a_state_subsuming_the_transition C16.pager.closed_state_is_the_closure_of_its_core_state
+        graph_inv(grm, r.core_states@, r.closed_states@, r.edges@), // OBL: C04.pager.every_edge_leads_to_a_state_subsuming_the_transition C02.pager.every_edge_leads_to_a_state_subsuming_the_transition C16.pager.closed_state_is_the_closure_of_its_core_state C15.pager.graph_invariant_holds_for_every_hash_map_order
         forall|s: int| 0 <= s < r.closed_states@.len() ==> (#[trigger] r.closed_states@[s]) is Some, // OBL: C04.pager.no_state_left_unprocessed C02.pager.no_state_left_unprocessed
 {
     //@probe
